@@ -100,6 +100,14 @@ Theorem C19_facts_callers : callers_ok fn_names ctx_inits caller_sites = true.
 Proof. exact facts_callers. Qed.
 Print Assumptions C19_facts_callers.
 
+(* No function of stream/, message/, security/, server/, client/, ccb/ that has a context
+   in scope calls context.Background / TODO / WithoutCancel (empty allow-list): the
+   caller's cancellation cannot be stripped on the way to stream I/O, not even by
+   reassigning the context variable. *)
+Theorem C19_facts_no_ctx_substitution : substs_ok fn_names ctx_substs = true.
+Proof. exact facts_no_ctx_substitution. Qed.
+Print Assumptions C19_facts_no_ctx_substitution.
+
 Theorem C19_facts_sites : forall s, In s io_sites ->
   ctx_ok ctx_inits (s_ctx s) = true /\ err_ok (s_err s) = true.
 Proof. exact facts_sites. Qed.
